@@ -7636,7 +7636,7 @@ let w_safename s =
 (** val clafer_keywords : char list list **)
 
 let clafer_keywords =
-  ('a'::('b'::('s'::('t'::('r'::('a'::('c'::('t'::[])))))))) :: (('x'::('o'::('r'::[]))) :: (('o'::('r'::[])) :: (('m'::('u'::('x'::[]))) :: (('n'::('o'::('t'::[]))) :: []))))
+  ('a'::('b'::('s'::('t'::('r'::('a'::('c'::('t'::[])))))))) :: (('x'::('o'::('r'::[]))) :: (('o'::('r'::[])) :: (('m'::('u'::('x'::[]))) :: (('n'::('o'::('t'::[]))) :: (('t'::('r'::('u'::('e'::[])))) :: (('f'::('a'::('l'::('s'::('e'::[]))))) :: (('i'::('n'::('t'::('e'::('g'::('e'::('r'::[]))))))) :: (('d'::('o'::('u'::('b'::('l'::('e'::[])))))) :: (('s'::('t'::('r'::('i'::('n'::('g'::[])))))) :: (('b'::('o'::('o'::('l'::('e'::('a'::('n'::[]))))))) :: []))))))))))
 
 (** val cl_safename : char list -> char list **)
 
